@@ -272,7 +272,7 @@ func (c *Ctx) c15Chunk(stage *ssa.Function) {
 									// guarded by the ok of the same lookup
 									for _, b := range ins.Parent().Blocks {
 										if iff, isIf := b.Instrs[len(b.Instrs)-1].(*ssa.If); isIf {
-											if ex, isEx := iff.Cond.(*ssa.Extract); isEx && ex.Tuple == lk.Tuple && ex.Index == 1 && b.Succs[0].Dominates(ins.Block()) {
+											if ex, isEx := iff.Cond.(*ssa.Extract); isEx && ex.Tuple == lk.Tuple && ex.Index == 1 && edgeDominates(b, 0, ins.Block()) {
 												okT, d = true, ""
 											}
 										}
@@ -319,8 +319,12 @@ func (c *Ctx) c15Chunk(stage *ssa.Function) {
 		R.Rules["E3.wiring"] = "the reply to a completion message is computed for the file that message names, and the computed ranges are stored into the handler on every path that computed them (no stale list from an earlier completion); the stage becomes Supplementary exactly when ranges are missing"
 		lr := layoutResult{}
 		c.completionWiring(lr, sweep, evt)
+		R.Rules["E3.sweep"] = "a file is reported complete only when nothing is missing: every return of the missing-range sweep has passed the comparison of the running offset with FileSize (shared with C16)"
+		okTail, dTail := c.sweepTail(sweep)
+		lr.set("E3.sweep", shortFn(sweep)+" / every return has passed the tail test against FileSize", okTail, dTail)
 		lr.flush(c, c.P.RelPos(evt.Pos()))
 		R.Require("E3.wiring", 3, "")
+		R.Require("E3.sweep", 1, "")
 	} else {
 		R.Fatal("anchors Package.StatisticalMissSegments / standardJT808DataHandle.OnPackageProgressEvent not found")
 	}
